@@ -108,6 +108,7 @@ pub fn gen_req(r: &mut Rng, fi: &FontInfo, max_len: usize) -> Req {
         pre: if r.chance(1, 8) { gen_text(r, &fi.chars, 3) } else { vec![] },
         post: if r.chance(1, 8) { gen_text(r, &fi.chars, 3) } else { vec![] },
         nf_vs: None,
+        ptem: None,
     }
 }
 
@@ -222,7 +223,10 @@ pub fn shape_catch(data: &[u8], req: &Req) -> Result<Vec<G>, String> {
     let d = data.to_vec();
     let rq = req.clone();
     catch(move || {
-        let f = Face::from_slice(&d, 0).unwrap();
+        let mut f = Face::from_slice(&d, 0).unwrap();
+        if let Some(p) = rq.ptem {
+            f.set_points_per_em(Some(p as f32));
+        }
         shape_req(&f, &rq)
     })
 }
@@ -265,9 +269,29 @@ pub fn run(args: &[String]) {
         }
         "c15" => c15(&mut r, &fonts, n, &mut tr),
         "c03" => c03(&mut r, &fonts, n, &mut tr),
+        "c03gen" | "c04gen" => {
+            C04_REDIST.store(arg_u64(args, "--redist", 2) as u8, std::sync::atomic::Ordering::Relaxed);
+            flag_gen_pass(which, seed, n, arg_u64(args, "--only", u64::MAX), &mut tr)
+        }
         "c05" => c05(&mut r, &fonts, n, &mut tr),
         "c01" => c01(&mut r, &fonts, n, &mut tr, args),
         "c01gen" => c01gen(&mut tr),
+        "flaggen-spec" => {
+            let spec = crate::flaggen::gen_font(seed, arg_u64(args, "--k", 0));
+            println!("gdef={:?}\nkern={:?}", spec.gdef, spec.kern);
+            if let Some(l) = &spec.gsub {
+                println!("GSUB features={:?}", l.features);
+                for (i, lk) in l.lookups.iter().enumerate() {
+                    println!("  lookup {} flags={:#x} {:?}", i, lk.flags, lk.subtables);
+                }
+            }
+            if let Some(l) = &spec.gpos {
+                println!("GPOS features={:?}", l.features);
+                for (i, lk) in l.lookups.iter().enumerate() {
+                    println!("  lookup {} flags={:#x} {:?}", i, lk.flags, lk.subtables);
+                }
+            }
+        }
         "one" => {
             // replay: rbv e2e one <prop> --font PATH --req "<request>"
             let prop = args.get(1).map(|s| s.as_str()).unwrap_or("");
@@ -636,6 +660,46 @@ fn c15(r: &mut Rng, fonts: &[FontInfo], n: u64, tr: &mut Option<std::fs::File>) 
             }
         }
     }
+    // dedicated pass: fonts with an AAT tracking table, shaped with a point size (tracking is added once per
+    // grapheme, so graphemes whose continuation is NOT a nonspacing mark matter: voiced sound marks, emoji
+    // modifiers, regional indicator pairs, ZWJ sequences, tag characters)
+    const CONT: &[u32] = &[0xFF9E, 0xFF9F, 0x1F3FB, 0x1F3FF, 0x200D, 0xE0061, 0x0301, 0x3099];
+    for fi in fonts.iter() {
+        let has_trak = Face::from_slice(&fi.data, 0).map(|f| f.tables().trak.is_some()).unwrap_or(false);
+        if !has_trak {
+            continue;
+        }
+        for j in 0..200u32 {
+            let len = 2 + r.below(7) as usize;
+            let mut text: Vec<u32> = Vec::new();
+            while text.len() < len {
+                match r.below(6) {
+                    0 | 1 => text.push(*r.pick(&fi.chars)),
+                    2 => text.push(*r.pick(&[0xFF8A, 0x41, 0x1F44B, 0x30AB])),
+                    3 => {
+                        text.push(0x1F1E6 + r.below(26) as u32);
+                        text.push(0x1F1E6 + r.below(26) as u32);
+                    }
+                    _ => {
+                        if !text.is_empty() {
+                            text.push(*r.pick(CONT));
+                        }
+                    }
+                }
+            }
+            let cl: Vec<u32> = (0..text.len() as u32).collect();
+            let req = Req {
+                text: text.into_iter().zip(cl.into_iter()).collect(),
+                dir: match j % 5 { 0 => None, k => Some(DIRS[(k - 1) as usize]) },
+                ptem: Some(*r.pick(&[1u32, 9, 12, 24, 72])),
+                flags: 3,
+                ..Default::default()
+            };
+            trace(tr, &format!("trak {} [{}]", fi.path, fmt_req(&req)));
+            check_c15(fi, &req, r, &mut cnt);
+            cnt.bump("trak_pass_cases");
+        }
+    }
     for i in 0..n {
         let fi = &fonts[r.below(fonts.len() as u64) as usize];
         let mut req = gen_req_s(r, fi, 16);
@@ -735,6 +799,49 @@ fn c03(r: &mut Rng, fonts: &[FontInfo], n: u64, tr: &mut Option<std::fs::File>) 
         check_c03(fi, &req, &mut cnt);
     }
     cnt.summary("C03");
+}
+
+/// C03/C04 on the generated small-alphabet fonts of flaggen.rs: font k of the fixed seed, 12 texts each.
+/// A failing font is written to RBV_DUMP_DIR as flaggen-<seed>-<k>.ttf (the name identifies the instance).
+fn flag_gen_pass(which: &str, seed: u64, n: u64, only: u64, tr: &mut Option<std::fs::File>) {
+    const TEXTS: u64 = 12;
+    let prop = if which == "c03gen" { "C03" } else { "C04" };
+    let mut cnt = Counters::default();
+    let dump = std::env::var("RBV_DUMP_DIR").ok();
+    let nfonts = (n + TEXTS - 1) / TEXTS;
+    for k in 0..nfonts {
+        if only != u64::MAX && k != only {
+            continue;
+        }
+        let spec = crate::flaggen::gen_font(seed, k);
+        let data = crate::fontgen::build(&spec);
+        let name = format!("flaggen-{}-{}.ttf", seed, k);
+        let path = match &dump {
+            Some(d) => format!("{}/{}", d, name),
+            None => format!("generated:{}", name),
+        };
+        let chars: Vec<u32> = spec.cmap.iter().map(|x| x.0).collect();
+        let fi = FontInfo { path: path.clone(), data, chars, has_layout: true, has_morx: false, has_kern: spec.kern.is_some(), scripts: vec![] };
+        let mut r = Rng::new(seed ^ (k.wrapping_mul(0x9E37_79B9)) ^ 0x7E57);
+        let before = cnt.fails;
+        for j in 0..TEXTS {
+            let req = crate::flaggen::gen_req(&mut r, k);
+            trace(tr, &format!("{} {} {} [{}]", k, j, crate::flaggen::family_of(k), fmt_req(&req)));
+            if prop == "C03" {
+                check_c03(&fi, &req, &mut cnt);
+            } else {
+                check_c04(&fi, &req, &mut cnt);
+            }
+        }
+        cnt.bump(&format!("fonts_{}", crate::flaggen::family_of(k)));
+        if cnt.fails > before {
+            if let Some(d) = &dump {
+                let _ = std::fs::create_dir_all(d);
+                let _ = std::fs::write(&path, &fi.data);
+            }
+        }
+    }
+    cnt.summary(prop);
 }
 
 // ------------------------------------------------------------------------------------------ C05
@@ -1325,6 +1432,48 @@ fn c01gen(tr: &mut Option<std::fs::File>) {
             text.extend((0..n).map(|i| (c, 1 + i as u32)));
             run_case("stch-long-word", &f, Req { text: text.clone(), flags: 3, ..Default::default() }, &mut cnt, tr);
             run_case("stch-long-word-ltr", &f, Req { text, flags: 3, dir: Some(Direction::LeftToRight), ..Default::default() }, &mut cnt, tr);
+        }
+    }
+    // 4d. stch with every combination of degenerate tile / word advances (zero-width repeating or fixed
+    //     tiles, zero-width words, a word narrower than the tiles): the tile arithmetic divides by the
+    //     repeating width and subtracts widths from each other
+    {
+        let mut l = Layout::single_feature(*b"stch", vec![Lookup::one(SubstSubtable::Multiple { coverage: Coverage::Glyphs(vec![1]), sequences: vec![vec![3, 4, 3]] })]);
+        for sc in l.scripts.iter_mut() {
+            sc.tag = *b"syrc";
+        }
+        for fixed in [0u16, 1, 100, 65535] {
+            for rep in [0u16, 1, 100, 65535] {
+                for word in [0u16, 1, 300, 65535] {
+                    let mut f = FontSpec::basic(6);
+                    f.cmap = vec![(0x070F, 1), (0x0712, 2), (0x0713, 5)];
+                    f.hadv = vec![500, 300, word, fixed, rep, 40000];
+                    f.gsub = Some(l.clone());
+                    for n in [1usize, 3, 8] {
+                        let mut text: Vec<(u32, u32)> = vec![(0x070F, 0)];
+                        text.extend((0..n).map(|i| (0x0712, 1 + i as u32)));
+                        text.push((0x002E, 1 + n as u32));
+                        let nm = format!("stch-tile-advances-f{}-r{}-w{}", fixed, rep, word);
+                        run_case(&nm, &f, Req { text: text.clone(), flags: 3, ..Default::default() }, &mut cnt, tr);
+                        run_case(&format!("{}-ltr", nm), &f, Req { text, flags: 3, dir: Some(Direction::LeftToRight), ..Default::default() }, &mut cnt, tr);
+                    }
+                }
+            }
+        }
+        // only repeating tiles, only fixed tiles
+        for seq in [vec![4u16, 4, 4], vec![3, 3], vec![4], vec![3, 4]] {
+            let mut l2 = Layout::single_feature(*b"stch", vec![Lookup::one(SubstSubtable::Multiple { coverage: Coverage::Glyphs(vec![1]), sequences: vec![seq.clone()] })]);
+            for sc in l2.scripts.iter_mut() {
+                sc.tag = *b"syrc";
+            }
+            for rep in [0u16, 7] {
+                let mut f = FontSpec::basic(6);
+                f.cmap = vec![(0x070F, 1), (0x0712, 2), (0x0713, 5)];
+                f.hadv = vec![500, 300, 250, 30, rep, 40000];
+                f.gsub = Some(l2.clone());
+                let text: Vec<(u32, u32)> = vec![(0x0712, 0), (0x070F, 1), (0x0712, 2), (0x0712, 3), (0x002E, 4)];
+                run_case(&format!("stch-tile-kinds-{}-r{}", seq.len() * 10 + seq[0] as usize, rep), &f, Req { text, flags: 3, ..Default::default() }, &mut cnt, tr);
+            }
         }
     }
     // 5. one base followed by 70000 marks attached by mark-to-base and mark-to-mark
